@@ -45,4 +45,18 @@ theorem respToOther_exists {c : Nat} {obs : List Obs} (h : respToOther c obs = t
     exact ⟨d, j, b, ho, hf.2, hf.1⟩
   | _ => simp at hf
 
+/-- decidable form of `Answerable` -/
+def answerableB (req : Json) : Bool :=
+  match req.getItem (k "id") with
+  | some id => idOk id
+  | none => false
+
+theorem answerable_of_bool {req : Json} (h : answerableB req = true) : Answerable req := by
+  unfold answerableB at h
+  split at h
+  · rename_i id hid; exact ⟨id, hid, h⟩
+  · cases h
+
+deriving instance DecidableEq for Oracle
+
 end Cjet.Daemon.C02.Ex
